@@ -195,10 +195,13 @@ func (p *plan) authOptions(id identity) []option {
 	free("Token-scheme", "Token abc", false)
 	free("Negotiate", "Negotiate", false)
 	free("Digest", `Digest username="vadmin", realm="verif", nonce="x", uri="/", response="y"`, false)
+	free("Basic-oauth-client", "Basic "+b64("vclient:"+asSecret), false)
+	free("Basic-oauth-client-wrong-secret", "Basic "+b64("vclient:wrong"), false)
 	free("tab", "Bearer \t", false)
 	free("only-spaces", "   ", false)
 
-	dep("valid-Basic", id.Basic, true)
+	dep("valid-Bearer", id.Bearer, true)
+	dep("lower-case-basic-scheme", "basic "+strings.TrimPrefix(id.Basic, "Basic "), false)
 	dep("lower-case-scheme", "bearer "+tok, false)
 	dep("Bearer-truncated", "Bearer "+tok[:len(tok)/2], true)
 	dep("Bearer-odd-length", "Bearer "+tok[:len(tok)-1], false)
